@@ -494,10 +494,52 @@ fn run_trace(seed: u64, nops: usize, c: &mut Counters) {
 				}
 				c.op("threads");
 			}
-			17 | 18 if !live.is_empty() => {
+			17 if !live.is_empty() => {
 				let k = rng.below(live.len());
 				live.swap_remove(k);
 				c.op("drop-one");
+			}
+			18 => {
+				// a freshly frozen schema whose FIRST use is concurrent (nothing sequential before the
+				// threads start): lazily initialised state, if any, is initialised under contention
+				let mut rs = small_schema(&mut rng);
+				for _ in 0..6 {
+					if rs.nodes.iter().any(|n| matches!(n.kind, Kind::Union(_))) {
+						break;
+					}
+					rs = small_schema(&mut rng);
+				}
+				let built = if rng.coin() {
+					rs.spell(None).compact().parse::<Schema>().ok()
+				} else {
+					rs.to_schema_mut().freeze().ok()
+				};
+				if let Some(s) = built {
+					let s = Arc::new(s);
+					let vals: Vec<Val> = (0..3).map(|_| gen_value(&rs, &mut rng)).collect();
+					let rsr = &rs;
+					let results: Vec<Vec<Option<Vec<u8>>>> = std::thread::scope(|sc| {
+						let hs: Vec<_> = (0..3)
+							.map(|_| {
+								let s = s.clone();
+								let vals = &vals;
+								sc.spawn(move || vals.iter().map(|v| ser(&s, rsr, v)).collect::<Vec<_>>())
+							})
+							.collect();
+						hs.into_iter().map(|h| h.join().expect("thread panicked")).collect()
+					});
+					let seq: Vec<Option<Vec<u8>>> = vals.iter().map(|v| ser(&s, &rs, v)).collect();
+					for r in results {
+						if r != seq {
+							c.mismatches.push("concurrent first use differs from sequential".into());
+						}
+					}
+					live.push(Live {
+						rs,
+						h: Holder::Shared(s),
+					});
+				}
+				c.op("threads-first-use");
 			}
 			_ => {
 				// single-object round trip when something is live
